@@ -454,6 +454,27 @@ func hasWriterParam(fn *ssa.Function) int {
 	return -1
 }
 
+// writerSlots: addresses whose load is the http.ResponseWriter of the handler: captured variables of that type in a
+// function literal, and the spill slot of the writer parameter w once a function literal captures it.
+func writerSlots(fn *ssa.Function, w ssa.Value) []ssa.Value {
+	var out []ssa.Value
+	for _, fv := range fn.FreeVars {
+		if pt, ok := fv.Type().(*types.Pointer); ok && types.TypeString(pt.Elem(), nil) == "net/http.ResponseWriter" {
+			out = append(out, fv)
+		}
+	}
+	if w != nil && w.Referrers() != nil {
+		for _, rf := range *w.Referrers() {
+			if st, ok := rf.(*ssa.Store); ok && st.Val == w {
+				if al, ok := st.Addr.(*ssa.Alloc); ok && initStore(al) == w {
+					out = append(out, al)
+				}
+			}
+		}
+	}
+	return out
+}
+
 // isReplyCall: direct reply actions on the ResponseWriter value w.
 func isReplyCall(c *ssa.CallCommon, isW func(ssa.Value) bool) bool {
 	if c.IsInvoke() {
@@ -515,6 +536,9 @@ func (ra *replyAnalysis) summary(fn *ssa.Function) *replySummary {
 	if wi >= 0 {
 		w = fn.Params[wi]
 	}
+	// the writer as a function literal sees it (a captured variable), and as the enclosing function does once the
+	// parameter is captured (its spill slot)
+	wAddrs := writerSlots(fn, w)
 	isW := func(v ssa.Value) bool {
 		for i := 0; i < 4; i++ {
 			if v == w && w != nil {
@@ -525,6 +549,15 @@ func (ra *replyAnalysis) summary(fn *ssa.Function) *replySummary {
 				v = x.X
 			case *ssa.ChangeInterface:
 				v = x.X
+			case *ssa.UnOp:
+				if x.Op == token.MUL {
+					for _, wa := range wAddrs {
+						if x.X == wa {
+							return true
+						}
+					}
+				}
+				return false
 			default:
 				return false
 			}
@@ -561,6 +594,7 @@ func (ra *replyAnalysis) summary(fn *ssa.Function) *replySummary {
 	one, zero := replyRange{1, 1}, replyRange{0, 0}
 	splitNil, splitNon := map[*ssa.Return]replyRange{}, map[*ssa.Return]replyRange{}
 	splitErrNil, splitErrNon := map[*ssa.Return]replyRange{}, map[*ssa.Return]replyRange{}
+	alwaysNil := map[ssa.Value]bool{}
 	in[fn.Blocks[0]] = &st{pending: map[ssa.Value]condCount{}}
 	for _, b := range fc.rpo {
 		s := in[b]
@@ -583,6 +617,19 @@ func (ra *replyAnalysis) summary(fn *ssa.Function) *replySummary {
 				}
 				continue
 			}
+			if sc := cc.StaticCallee(); sc != nil && len(sc.Blocks) > 0 && ra.p.InModule(sc) && sc.Signature.Results().Len() >= 1 {
+				if _, isPtr := sc.Signature.Results().At(0).Type().Underlying().(*types.Pointer); isPtr {
+					allNil := true
+					for _, rt := range returnsOf(sc) {
+						if !isNilConst(Resolve(rt.Results[0])) {
+							allNil = false
+						}
+					}
+					if allNil {
+						alwaysNil[c] = true
+					}
+				}
+			}
 			passes := false
 			for _, ar := range cc.Args {
 				if isW(ar) {
@@ -591,6 +638,9 @@ func (ra *replyAnalysis) summary(fn *ssa.Function) *replySummary {
 			}
 			if cc.IsInvoke() && isW(cc.Value) {
 				passes = false // Header() etc.
+			}
+			if sc := cc.StaticCallee(); sc != nil && sc.Parent() != nil && len(writerSlots(sc, nil)) > 0 {
+				passes = true // a function literal that captured the writer
 			}
 			if !passes {
 				continue
@@ -618,6 +668,10 @@ func (ra *replyAnalysis) summary(fn *ssa.Function) *replySummary {
 			if cs.nilRes != nil && cs.nonNil != nil {
 				cur.pending[c] = condCount{ifNil: *cs.nilRes, ifNonNil: *cs.nonNil}
 				continue
+			}
+			// a callee whose pointer result is nil on every exit (or on none): an exit that forwards it is of that kind
+			if cs.nilRes != nil && cs.nonNil == nil {
+				alwaysNil[c] = true
 			}
 			if cs.errNil != nil && cs.errNonNil != nil {
 				if ev := errResultValue(c); ev != nil && len(*ev.Referrers()) > 0 {
@@ -716,7 +770,7 @@ func (ra *replyAnalysis) summary(fn *ssa.Function) *replySummary {
 				if sn, ok := splitNil[ret]; ok {
 					joinPtr(&sum.nilRes, sn)
 					joinPtr(&sum.nonNil, splitNon[ret])
-				} else if isNilConst(Resolve(ret.Results[0])) {
+				} else if rv := Resolve(ret.Results[0]); isNilConst(rv) || alwaysNil[rv] {
 					joinPtr(&sum.nilRes, rr)
 				} else {
 					joinPtr(&sum.nonNil, rr)
